@@ -35,6 +35,26 @@ for sid in sorted(x for x in os.listdir(sd) if os.path.isdir(os.path.join(sd, x)
             rep = k.split("/")[0]
     seeded.append("| %s | %s | %s | %s | %s | %s |" % (sid, m.get("property", ""), clip(m.get("summary", "") + " — " + m.get("what_it_needs_to_manifest", ""), 330), q, t, rep))
 tmpl = open(os.path.join(V, "harness", "design_sec10.template.md")).read()
+import re
+def _ev(pid):
+    try:
+        return json.load(open(os.path.join(V, "evidence", pid + ".json")))["coverage"]
+    except Exception:
+        return {}
+tmpl = re.sub(r"@@OBL:(C\d\d)@@", lambda m: str(_ev(m.group(1)).get("obligations", "?")), tmpl)
+tmpl = re.sub(r"@@CASES:(C\d\d)@@", lambda m: "{:,}".format(_ev(m.group(1)).get("evaluations", 0)).replace(",", " "), tmpl)
+def _wc(root, ext):
+    n = 0
+    for d, _, fs in os.walk(root):
+        if ".lake" in d or "__pycache__" in d:
+            continue
+        for f in fs:
+            if f.endswith(ext):
+                n += sum(1 for _ in open(os.path.join(d, f), errors="ignore"))
+    return n
+tmpl = tmpl.replace("@@LEANLINES@@", "≈ {:,}".format(round(_wc(os.path.join(V, "lean"), ".lean"), -3)).replace(",", " "))
+tmpl = tmpl.replace("@@PYLINES@@", "≈ {:,}".format(round(_wc(os.path.join(V, "harness"), ".py"), -3)).replace(",", " "))
+tmpl = tmpl.replace("@@OBLTOTAL@@", str(sum(_ev("C%02d" % i).get("obligations", 0) for i in range(1, 21))))
 tmpl = tmpl.replace("@@FIXED@@", "\n".join(fixed)).replace("@@KNOWN@@", "\n".join(known)).replace("@@SEEDED@@", "\n".join(seeded))
 path = os.path.join(V, "DESIGN.md")
 s = open(path).read()
